@@ -53,7 +53,8 @@ def _get_target_parameters(parameters,target):
 def _get_target_states(parameters,target):
     # used to separate and re-order target_state from a single list of parameters
     parameter_names = [parameter.name for parameter in parameters]
-    target_list = [tar.name for tar in target if tar in parameter_names]
+    # (the ID is what the Parameter objects are named after; an ODEVariable may carry another display name)
+    target_list = [tar.ID for tar in target if tar in parameter_names]
     if len(target_list) == 0:
         return None
     else:
